@@ -178,12 +178,12 @@ K = {"T1": ["T1", False], "T2": ["T2", False], "T3": ["T3", False], "T1u": ["T1"
 
 
 def lines_gen(L, D, E, kinds, unit="  ", base=0, free=(), ws=(), blank=True, suffix="", simulate=None, code_a="", code_b="",
-              mb=False, max_code=99, empty_default=False, pairs=False, preamble=0, inline=False, pair_kind="R"):
+              mb=False, max_code=99, empty_default=False, pairs=False, preamble=0, inline=False, pair_kind="R", eol="\n"):
     from vlib import TlaSet
     g = {"base": "GenLines", "constraint": "Feasible",
          "consts": {"L": L, "D": D, "E": E, "Kinds": TlaSet([K[k] for k in kinds]), "Unit": Chars(unit), "Base": base,
                     "FreeInd": TlaSet(list(free)), "WsLens": TlaSet(list(ws)), "Blank": blank, "Suffix": Chars(suffix), "CodeA": Chars(code_a), "CodeB": Chars(code_b), "MbCode": mb, "MaxCode": max_code, "EmptyDefault": empty_default, "PairLines": pairs, "Preamble": preamble,
-                    "InlineTags": inline, "PairKind": K[pair_kind],
+                    "InlineTags": inline, "PairKind": K[pair_kind], "EOL": Chars(eol),
                     "PastTo": Chars(PAST), "FutureTo": Chars(FUTURE),
                     "Tos": [Chars(t) for t in TOS], "Names": [Chars(n) for n in MNAMES]}}
     if simulate:
@@ -309,7 +309,8 @@ def conformance_job(ctx, invariants):
     q = ctx.quick
     gens = [lines_gen(4 if q else 6, 2, 2, ["R", "P", "Ru"], ws=(2,)),
             lines_gen(6 if q else 8, 2, 2, ["Ru", "R"], blank=False, base=1),
-            lines_gen(4 if q else 6, 2, 2, ["T", "F", "Pu"], unit="\t", base=1, suffix="é")]
+            lines_gen(4 if q else 6, 2, 2, ["T", "F", "Pu"], unit="\t", base=1, suffix="é"),
+            lines_gen(4 if q else 5, 2, 2, ["R", "P", "Ru"], ws=(2,), eol="\r\n")]          # CRLF: CR is an ordinary character
     ctx.job("conformance", gens=gens, invariants=invariants,
             ops=[{"op": "tokenize"}, {"op": "tree"}, {"op": "clean"}, {"op": "list_json"}, {"op": "list_all_json"},
                  {"op": "list"}, {"op": "list_all"}],
